@@ -72,6 +72,10 @@ def do_replay(prop, inst, res, scratch):
     attempts = ([(True, True)] if inst.get("defines_small") else []) + [(False, False)]
     if not inst.get("loops") and not inst.get("defines_small"):
         attempts = [(False, False)]
+    if not inst.get("replay"):
+        attempts = attempts[-1:]      # no native driver to feed: one trace for the replay file is enough
+    inst = dict(inst)
+    inst["timeout_s"] = min(int(inst.get("timeout_s", 300)), 300)     # the search for a trace must not dominate the run
     for small, concrete in attempts:
         r = unitrun.run_instance(inst, tier="quick", scratch=scratch, small=small, want_trace=[], keep=False, concrete=concrete)
         if r["status"] == "fail" and r.get("traces"):
